@@ -73,9 +73,41 @@ fn dump_table(st: &State, frame: u64, level: u8, tables: &mut BTreeMap<u64, u8>,
 }
 
 pub fn dump(st: &State, root: u64) -> Dump {
+    dump_skip(st, root, None)
+}
+
+/// like `dump`, but leaves out one level-4 slot (the recursive entry of a RecursivePageTable)
+pub fn dump_skip(st: &State, root: u64, skip_l4: Option<u16>) -> Dump {
     let mut tables = BTreeMap::new();
     let mut reads = 0;
-    let kids = dump_table(st, root, 4, &mut tables, &mut reads);
+    let saved = skip_l4.and_then(|i| st.frame_index(root).map(|fi| (fi, i as usize, st.read(fi, i as usize))));
+    let mut kids = BTreeMap::new();
+    if let Some(fi) = st.frame_index(root) {
+        tables.insert(root, 4);
+        for i in 0..512usize {
+            if Some(i as u16) == skip_l4 {
+                continue;
+            }
+            let raw = st.read(fi, i);
+            reads += 1;
+            if raw == 0 {
+                continue;
+            }
+            let node = if raw & P == 0 || raw & PS != 0 {
+                RNode::Garbage { raw }
+            } else {
+                let child = raw & ADDR;
+                if st.frame_index(child).is_some() {
+                    let k = dump_table(st, child, 3, &mut tables, &mut reads);
+                    RNode::Table { raw, frame: child, kids: k }
+                } else {
+                    RNode::Dangling { raw }
+                }
+            };
+            kids.insert(i as u16, node);
+        }
+    }
+    let _ = saved;
     Dump { root, kids, tables, entries_read: reads }
 }
 
